@@ -6,7 +6,7 @@ OUT=${MULTI_OUT:-/tmp/multi_seed_out}
 mkdir -p $OUT
 cd "$(dirname "$0")/.."
 for seed in "$@"; do
-  for p in C03 C10 C13 C14 C15 C16 C17 C19 C20; do
+  for p in ${PROPS:-C03 C10 C13 C14 C15 C16 C17 C19 C20}; do
     VERIF_SEED=$seed VERIF_EVIDENCE_DIR=$OUT/ev_$seed VERIF_REPLAY_DIR=$OUT/replays /venv/bin/python sim/check.py --property $p --tier $TIER > $OUT/$p-$seed.log 2>&1
     echo "seed=$seed $p exit=$? $(grep -e "$p/$TIER:" $OUT/$p-$seed.log | cut -c1-200) $(grep -c '^VIOLATION' $OUT/$p-$seed.log) violation-lines"
   done
